@@ -2,6 +2,7 @@ package c02
 
 import (
 	"fmt"
+	"os"
 	"math/big"
 	"regexp"
 	"strings"
@@ -206,7 +207,18 @@ func (m *monitor) insert(b []int) {
 	if reached > 0 {
 		m.lastGiven = b[reached-1]
 	}
+	if os.Getenv("VERIF_TRACE") != "" {
+		fmt.Fprintf(os.Stderr, "TRACE insert %v -> (%d, %v) head=%d\n", b, n, err, m.bc.CurrentBlock().NumberU64())
+	}
 	switch {
+	case err != nil && (firstBad < 0 || n < firstBad) && !m.ancestorsGiven(b[n]):
+		// An earlier batch was abandoned at a block before this one's ancestor
+		// (the missing-state observation below, or an already reported
+		// violation), so that ancestor was never looked at by the node: the
+		// schedule delivered it, the node never validated nor stored it. Refusing
+		// its descendant as an orphan is correct (found by the thorough tier,
+		// medium-51-6). Not a violation.
+		m.count("obs_descendant_of_never_reached_block_refused")
 	case err != nil && (firstBad < 0 || n < firstBad) && strings.Contains(err.Error(), "missing trie node"):
 		// A block that is already known WITH state (a former head or head-1 of a
 		// side branch, flushed at a Stop) is re-executed when the head is below its
@@ -225,6 +237,17 @@ func (m *monitor) insert(b []int) {
 		m.count("invalid_block_rejected")
 	}
 	m.check("insert", b, n, err)
+}
+
+// ancestorsGiven reports whether every proper ancestor of node x was in a
+// batch position the node actually reached.
+func (m *monitor) ancestorsGiven(x int) bool {
+	for a := m.t.Nodes[x].Parent; a > 0; a = m.t.Nodes[a].Parent {
+		if !m.given[a] {
+			return false
+		}
+	}
+	return true
 }
 
 func (m *monitor) insertHeaders(b []int) {
